@@ -290,6 +290,77 @@ func RequestPlacement(sp *spec.Spec, sv *spec.Service, m *spec.Method, ex *rt.Ex
 			}
 		}
 	}
+	// member names of the JSON body, at every depth: the design's attribute names, spelled exactly
+	if len(w.Body) > 0 && h.Body != "empty" {
+		var got any
+		dec := json.NewDecoder(strings.NewReader(string(w.Body)))
+		dec.UseNumber()
+		if dec.Decode(&got) == nil {
+			var want any
+			if strings.HasPrefix(h.Body, "attr:") {
+				want = sent[strings.TrimPrefix(h.Body, "attr:")]
+			} else {
+				o := map[string]any{}
+				for _, a := range cases.BodyAttrs(sp, m) {
+					if x, ok := sent[a.Name]; ok {
+						o[a.Name] = x
+					}
+				}
+				want = o
+			}
+			memberNames("body", want, got, func(path, wantName, gotName string) {
+				v.add("wire-placement:body:member-name:request", "JSON body member at %s is spelled %q on the wire, the design names it %q", path, gotName, wantName)
+			})
+		}
+	}
+}
+
+// memberNames walks a sent tree and the JSON value found on the wire side by side and reports every
+// object member that is present on the wire under a name differing from the design's attribute name
+// only by case or separators (Go's case-insensitive decoding hides such a slip from a Go peer).
+func memberNames(path string, want, got any, report func(path, wantName, gotName string)) {
+	switch wv := want.(type) {
+	case []any:
+		ga, _ := got.([]any)
+		for i := range wv {
+			if i < len(ga) {
+				memberNames(fmt.Sprintf("%s[%d]", path, i), wv[i], ga[i], report)
+			}
+		}
+	case map[string]any:
+		gm, ok := got.(map[string]any)
+		if !ok {
+			return
+		}
+		if mm, isMap := vtree.IsMap(want); isMap {
+			for k, e := range mm {
+				if g, ok := gm[cases.TextOf(k)]; ok {
+					memberNames(path+"{}", e, g, report)
+				}
+			}
+			return
+		}
+		if _, uv, isU := vtree.IsUnion(want); isU {
+			_ = uv
+			return
+		}
+		for name, e := range wv {
+			if e == nil || vtree.Empty(vtree.Norm(e)) {
+				continue
+			}
+			if g, ok := gm[name]; ok {
+				memberNames(path+"."+name, e, g, report)
+				continue
+			}
+			for gname, g := range gm {
+				if spec.Norm(gname) == spec.Norm(name) {
+					report(path+"."+name, name, gname)
+					memberNames(path+"."+name, e, g, report)
+					break
+				}
+			}
+		}
+	}
 }
 
 func isStdHeader(n string) bool {
@@ -381,6 +452,17 @@ func ResponsePlacement(sp *spec.Spec, m *spec.Method, ex *rt.Exchange, v *Verdic
 				bad("missing", "member %q missing from the JSON body", a.Name)
 			}
 		}
+	}
+	if bodyIsObject && (resp == nil || (resp.Body == "" || resp.Body == "custom")) {
+		o := map[string]any{}
+		for name := range inBody {
+			if x, ok := res[name]; ok {
+				o[name] = x
+			}
+		}
+		memberNames("body", o, map[string]any(body), func(path, wantName, gotName string) {
+			v.add("wire-placement:body:member-name:response", "JSON body member at %s is spelled %q on the wire, the design names it %q", path, gotName, wantName)
+		})
 	}
 }
 
